@@ -220,7 +220,14 @@ fn grid3_at<T: Tier + Dom<M = Sh>>(rep: &mut Report, name: &str, r: i64, sc: (i3
     let side = (2 * r + 1) as usize;
     let dims = vec![side; 6];
     // scaled systems: eye at the origin, so that target = eye + d carries d exactly whatever its length
-    let eyes: Vec<[T; 3]> = if sc == (0, 0) { (0..2).map(|v| vec_from_r::<T, 3>(&alphabet::generic(3, v))).collect() } else { vec![[T::zero(); 3]] };
+    // (unscaled grid: two eyes near the origin and a far one - the translation is -R eye, exact to the rounding of its terms)
+    let eyes: Vec<[T; 3]> = if sc == (0, 0) {
+        let mut e: Vec<[T; 3]> = (0..2).map(|v| vec_from_r::<T, 3>(&alphabet::generic(3, v))).collect();
+        e.push(vec_from_r::<T, 3>(&alphabet::generic(3, 2).iter().map(|r| (r.0 << 13, r.1)).collect::<Vec<_>>()));
+        e
+    } else {
+        vec![[T::zero(); 3]]
+    };
     let (sd, su): (T, T) = (num_traits::cast::<f64, T>(2f64.powi(sc.0)).unwrap(), num_traits::cast::<f64, T>(2f64.powi(sc.1)).unwrap());
     rep.cases(
         name,
